@@ -393,9 +393,12 @@ func (ps *propertyServer) Delete(ctx context.Context, req *propertyv1.DeleteRequ
 			ps.log.Error().Err(errAccessLog).Msg("ingestion access log error")
 		}
 	}
+	// the lookup must see every matching property: the default query limit would leave
+	// the properties beyond it alive while the response still reports deleted
 	qReq := &propertyv1.QueryRequest{
 		Groups: []string{g},
 		Name:   req.Name,
+		Limit:  math.MaxUint32,
 	}
 	if len(req.Id) > 0 {
 		qReq.Ids = []string{req.Id}
